@@ -46,6 +46,12 @@ func H_C05_concrete_MODELNAME() {
 	c05cellsy_MODELNAME(3, 2, 2, 2, false, true)
 }
 
+// H_C05_window_MODELNAME: the inputs handed to Run are a time WINDOW of a longer record (a view
+// with a start offset on the timestep axis), so every cell's input block is non-contiguous and the
+// array library's slow (element-by-element) paths run inside the cell goroutines.
+//vsym:prop=C05 tier=quick ints=int floats=real timeout=60 wall=240 cut=3 unwind=80
+func H_C05_window_MODELNAME() { c05cellsz_MODELNAME(3, 2, 2, 2, false, false, true) }
+
 func c05cells_MODELNAME(N, nSets, nBlocks, T int) { c05cellsx_MODELNAME(N, nSets, nBlocks, T, false) }
 
 func c05cellsx_MODELNAME(N, nSets, nBlocks, T int, realRoot bool) {
@@ -53,6 +59,10 @@ func c05cellsx_MODELNAME(N, nSets, nBlocks, T int, realRoot bool) {
 }
 
 func c05cellsy_MODELNAME(N, nSets, nBlocks, T int, realRoot bool, concrete bool) {
+	c05cellsz_MODELNAME(N, nSets, nBlocks, T, realRoot, concrete, false)
+}
+
+func c05cellsz_MODELNAME(N, nSets, nBlocks, T int, realRoot bool, concrete bool, window bool) {
 	name := "MODELNAME"
 	if !concrete && wrHeavy(name) {
 		vsym.Note("kernel of " + name + " is outside the reach of the executor within the budget: this wrapper is not exercised with its own kernel")
@@ -108,6 +118,17 @@ func c05cellsy_MODELNAME(N, nSets, nBlocks, T int, realRoot bool, concrete bool)
 		}
 	}
 	outputs := data.NewArray3DFloat64(N, nO, T)
+	if window {
+		record := data.NewArray3DFloat64(nBlocks, nI, T+2)
+		for b := 0; b < nBlocks; b++ {
+			for i := 0; i < nI; i++ {
+				for t := 0; t < T; t++ {
+					record.Set3(b, i, t+1, inputs.Get3(b, i, t))
+				}
+			}
+		}
+		inputs = record.Slice([]int{0, 0, 1}, []int{nBlocks, nI, T}, nil).(data.ND3Float64)
+	}
 	vsym.LogStart()
 	w.m.Run(inputs, states, outputs)
 	vsym.LogStop()
